@@ -140,6 +140,22 @@ theorem act_staged_frame (fs : Fs) (g : Good fs) (a : Act) (x : Fs) (hx : LeftBy
       simp only [stagedStateP, List.cons.injEq, Seg.proj.injEq, Seg.rel.injEq, Seg.state.injEq, and_true, true_and] at this
       exact safe ⟨this.1, this.2.1, this.2.2 ▸ hs'⟩
 
+/-- … also where a transient fault makes the call raise -/
+theorem act_staged_frame_F (fs : Fs) (g : Good fs) (a : Act) (j : Nat) (p v s : Nat) (safe : StagedSafe a p v s) :
+    get (faultTree fs a j) (stagedStateP p v s) = get fs (stagedStateP p v s) := by
+  by_cases hp : ∃ dp name w pkg, a = .publish dp name w pkg
+  · obtain ⟨dp, name, w, pkg, rfl⟩ := hp
+    have hft : faultTree fs (.publish dp name w pkg) j = faultIn Impl.repaired fs (.publish dp name w pkg) j := rfl
+    rcases fault_publish_cases fs g dp name w pkg j with h | ⟨_, hq⟩
+    · rw [hft, h]
+      exact act_staged_frame fs g (.publish dp name w pkg) _ (Or.inr ⟨j, none, rfl⟩) p v s safe
+    · rw [hft]
+      exact hq.1 _ (by simp [stagedStateP, projectP]) (by simp [stagedStateP, releaseP])
+        (by simp [stagedStateP, packageTmpP])
+  · have hne : ∀ dp name w pkg, a ≠ .publish dp name w pkg := fun dp name w pkg e => hp ⟨dp, name, w, pkg, e⟩
+    rw [faultTree_crash fs a j hne]
+    exact act_staged_frame fs g a _ (Or.inr ⟨j, none, rfl⟩) p v s safe
+
 /-! ### the handle table -/
 
 theorem lookupH_mem (hs : List (Nat × Handle)) (h : Nat) (x : Handle) (hl : lookupH hs h = some x) : (h, x) ∈ hs := by
@@ -430,6 +446,7 @@ def HOp.dumpSid : HOp → Option Nat
 def HEv.dumpSid : HEv → Option Nat
   | .run _ op => op.dumpSid
   | .die _ op _ _ => op.dumpSid
+  | .fault _ op _ => op.dumpSid
 
 /-- the state ids drawn by the dumps of a history (`uuid.uuid4()` in `Release.dump`), in order -/
 def dumpSids (evs : List HEv) : List Nat := evs.filterMap HEv.dumpSid
@@ -465,6 +482,68 @@ theorem staged_kept (w : World) (used : List Nat) (inv : Owed w used) (h : Nat) 
     · exact hne x hl (inv.owner e0 he0 (h, x) (lookupH_mem _ _ _ hl) s hs hc.2.2)
     · exact hne _ _ _ _ h1
 
+theorem commit_done (fs : Fs) (x : Handle) (he : (plan fs x .commit).err = none) : (plan fs x .commit).x.done = true := by
+  cases ha : x.acc with
+  | none => simp [plan, ha] at he
+  | some a =>
+    obtain ⟨o, n⟩ := a
+    by_cases hn : x.sids.length ≠ n
+    · simp [plan, ha, hn] at he
+    · cases hr : resolveRel fs x with
+      | mk x' r =>
+        cases r with
+        | error e => simp [plan, ha, hn, hr] at he
+        | ok v => simp [plan, ha, hn, hr]
+
+/-- the handle a faulted operation leaves: same project, same dumps, keys stay resolved, and — if the operation was a
+commit that reached the registry — nothing owed any more -/
+theorem faultHandle_fields (w : World) (h : Nat) (x : Handle) (op : HOp) (hl : lookupH w.hs h = some x) :
+    (faultHandle w.fs x op).proj = x.proj ∧ (faultHandle w.fs x op).dumped = x.dumped
+      ∧ (∀ v, x.rel = some v → (faultHandle w.fs x op).rel = some v)
+      ∧ ((faultHandle w.fs x op).done = true
+          ∨ ((faultHandle w.fs x op).done = x.done ∧ ∀ p v o s, actOf w h op ≠ .close p v o s)) := by
+  have notclose : ∀ op', (op' ≠ .commit ∨ (plan w.fs x op').err ≠ none) → ∀ p v o s, actOf w h op' ≠ .close p v o s := by
+    intro op' hh p v o s e'
+    rcases actOf_shape w h op' with h1 | ⟨_, _, _, _, _, h1⟩ | ⟨_, _, _, _, _, _, h1, _⟩ | ⟨x0, v0, o0, hl0, hc, h1, _⟩
+    · rw [h1] at e'; cases e'
+    · rw [h1] at e'; cases e'
+    · rw [h1] at e'; cases e'
+    · subst hc
+      rcases hh with h2 | h2
+      · exact h2 rfl
+      · have hact := actOf_general w h .commit (by intros; simp) (by simp)
+        rw [hl] at hact
+        cases hpe : (plan w.fs x .commit).err with
+        | none => exact h2 hpe
+        | some e0 =>
+          simp only [hpe] at hact
+          rw [hact] at e'; cases e'
+  cases op with
+  | «open» proc p v g => exact ⟨rfl, rfl, fun v hv => hv, Or.inr ⟨rfl, notclose _ (Or.inl (by simp))⟩⟩
+  | look => exact ⟨rfl, rfl, fun v hv => hv, Or.inr ⟨rfl, notclose _ (Or.inl (by simp))⟩⟩
+  | begin o n => exact ⟨rfl, rfl, fun v hv => hv, Or.inr ⟨rfl, notclose _ (Or.inl (by simp))⟩⟩
+  | publish name v pkg =>
+    obtain ⟨f1, _, f3, f4, f5⟩ := plan_fields w.fs x (.publish name v pkg) (by intros; simp)
+    refine ⟨f1, f3, f4, Or.inr ⟨?_, notclose _ (Or.inl (by simp))⟩⟩
+    rcases f5 with f5 | ⟨_, f5, _⟩
+    · exact f5
+    · cases f5
+  | dump sid b =>
+    obtain ⟨f1, _, f3, f4, f5⟩ := plan_fields w.fs x (.dump sid b) (by intros; simp)
+    refine ⟨f1, f3, f4, Or.inr ⟨?_, notclose _ (Or.inl (by simp))⟩⟩
+    rcases f5 with f5 | ⟨_, f5, _⟩
+    · exact f5
+    · cases f5
+  | commit =>
+    obtain ⟨f1, _, f3, f4, f5⟩ := plan_fields w.fs x .commit (by intros; simp)
+    refine ⟨f1, f3, f4, ?_⟩
+    cases hpe : (plan w.fs x .commit).err with
+    | none => exact Or.inl (commit_done w.fs x hpe)
+    | some e0 =>
+      rcases f5 with f5 | ⟨_, _, f5⟩
+      · exact Or.inr ⟨f5, notclose _ (Or.inr (by rw [hpe]; simp))⟩
+      · rw [hpe] at f5; cases f5
+
 theorem applyH_owed (w : World) (used : List Nat) (e : HEv) (inv : Owed w used) (g2 : Good2 w.fs)
     (fresh : ∀ sid, e.dumpSid = some sid → sid ∉ used) :
     Owed (applyH Impl.repaired w e) (used ++ e.dumpSid.toList) := by
@@ -498,6 +577,56 @@ theorem applyH_owed (w : World) (used : List Nat) (e : HEv) (inv : Owed w used) 
         exact List.mem_append_left _ (inv.used e0 (hsub e0 he0).1 s hs)
       · intro e1 he1 e2 he2 s h1 h2
         exact inv.owner e1 (hsub e1 he1).1 e2 (hsub e2 he2).1 s h1 h2
+  | fault h op j =>
+    simp only [applyH]
+    cases hl : lookupH w.hs h with
+    | none =>
+      exact ⟨inv.staged, fun e0 he0 s hs => List.mem_append_left _ (inv.used e0 he0 s hs), inv.owner⟩
+    | some x =>
+      dsimp only
+      have hfs : (runSome w.fs (faultAtoms (atomsAll (perform Impl.repaired w h op).calls.flatten) j)).1
+          = faultTree w.fs (actOf w h op) j := by simp only [faultTree, (perform_act w h op).2]
+      rw [hfs]
+      obtain ⟨q1, q2, q3, q4⟩ := faultHandle_fields w h x op hl
+      have hxin := lookupH_mem _ _ _ hl
+      have keep : ∀ e0 ∈ w.hs, e0.2.done = false → ∀ sb ∈ e0.2.dumped,
+          ((∀ x', lookupH w.hs h = some x' → e0 ≠ (h, x')) ∨ ∀ p v o s, actOf w h op ≠ .close p v o s) →
+          ∃ v, e0.2.rel = some v
+            ∧ get (faultTree w.fs (actOf w h op) j) (stagedStateP e0.2.proj v sb.1) = some (.file sb.2) := by
+        intro e0 hin hd sb hsb hne
+        obtain ⟨v, hv, hg⟩ := inv.staged e0 hin hd sb hsb
+        refine ⟨v, hv, ?_⟩
+        rw [act_staged_frame_F w.fs g2.good _ j e0.2.proj v sb.1
+          (staged_kept w used inv h op fresh e0 hin v sb.1 (mem_sids _ _ hsb) hne)]
+        exact hg
+      have hsids : (faultHandle w.fs x op).sids = x.sids := by simp [Handle.sids, q2]
+      refine ⟨?_, ?_, ?_⟩
+      · intro e0 he0 hd sb hsb
+        rw [mem_setH] at he0
+        rcases he0 with rfl | ⟨hin, hne⟩
+        · simp only at hd hsb
+          rcases q4 with q4 | ⟨q4, hnc⟩
+          · rw [q4] at hd; cases hd
+          · rw [q4] at hd; rw [q2] at hsb
+            obtain ⟨v, hv, hg⟩ := keep (h, x) hxin hd sb hsb (Or.inr hnc)
+            exact ⟨v, q3 v hv, by simp only [q1]; exact hg⟩
+        · exact keep e0 hin hd sb hsb (Or.inl (fun x' _ e' => hne (by rw [e'])))
+      · intro e0 he0 s hs
+        rw [mem_setH] at he0
+        rcases he0 with rfl | ⟨hin, _⟩
+        · simp only [hsids] at hs
+          exact List.mem_append_left _ (inv.used _ hxin s hs)
+        · exact List.mem_append_left _ (inv.used e0 hin s hs)
+      · intro e1 he1 e2 he2 s h1 h2
+        rw [mem_setH] at he1 he2
+        have clash : ∀ e0, e0 ∈ w.hs → e0.1 ≠ h → s ∈ e0.2.sids → s ∈ x.sids → False := by
+          intro e0 hin hne hs0 hsx
+          exact hne (by rw [inv.owner e0 hin (h, x) hxin s hs0 hsx])
+        rcases he1 with rfl | ⟨hin1, hne1⟩ <;> rcases he2 with rfl | ⟨hin2, hne2⟩
+        · rfl
+        · simp only [hsids] at h1; exact absurd (clash e2 hin2 hne2 h2 h1) id
+        · simp only [hsids] at h2; exact absurd (clash e1 hin1 hne1 h1 h2) id
+        · exact inv.owner e1 hin1 e2 hin2 s h1 h2
   | run h op =>
     simp only [applyH]
     have hleft : LeftByAct w.fs (actOf w h op) (perform Impl.repaired w h op).w.fs := Or.inl (perform_act w h op).1
